@@ -10,7 +10,7 @@
 #include "mcx/arena.h"
 using namespace Avoid; using namespace std;
 static mcx::Ctx ctx;
-struct Cfg { int opt, reg; bool second; int obstacle; int heap; };
+struct Cfg { int opt, reg; int second; int obstacle; int heap; };   // second: 0 nothing, 1 a transaction that moves a terminal, 2 a SECOND full rerouting in the next transaction
 static string cfg_str(const Cfg &c) { return mcx::fmt("improve=%s register=%s second_transaction=%d obstacle=%d heap=%s", c.opt == 0 ? "off" : c.opt == 1 ? "moving" : "moving+adding+deleting", c.reg == 0 ? "none" : c.reg == 1 ? "by junction" : "by terminal list", c.second, c.obstacle, c.heap == 0 ? "system" : c.heap == 1 ? "ascending" : "descending"); }
 
 static void run(const vector<pair<int, int>> &shapePos, pair<int, int> jpos, const Cfg &c) {
@@ -36,7 +36,7 @@ static void run(const vector<pair<int, int>> &shapePos, pair<int, int> jpos, con
         if (c.reg == 1) { router->hyperedgeRerouter()->registerHyperedgeForRerouting(j); router->processTransaction(); nTrans++; }
         if (c.reg == 2) { ConnEndList terms; for (auto s : shapes) terms.push_back(ConnEnd(s, 1)); router->hyperedgeRerouter()->registerHyperedgeForRerouting(terms); router->processTransaction(); nTrans++; }
         // consistency of the reported lists with the live objects
-        if (c.reg) { HyperedgeNewAndDeletedObjectLists l = router->hyperedgeRerouter()->newAndDeletedObjectLists(0);
+        auto checkLists = [&]() { HyperedgeNewAndDeletedObjectLists l = router->hyperedgeRerouter()->newAndDeletedObjectLists(0);
             set<ConnRef *> live(router->connRefs.begin(), router->connRefs.end()); set<Obstacle *> liveObs(router->m_obstacles.begin(), router->m_obstacles.end());
             HyperedgeNewAndDeletedObjectLists im = router->newAndDeletedObjectListsFromHyperedgeImprovement();   // improvement runs after rerouting in the same transaction and may delete again what rerouting created
             set<ConnRef *> imDelC(im.deletedConnectorList.begin(), im.deletedConnectorList.end()); set<JunctionRef *> imDelJ(im.deletedJunctionList.begin(), im.deletedJunctionList.end());
@@ -44,12 +44,22 @@ static void run(const vector<pair<int, int>> &shapePos, pair<int, int> jpos, con
             for (auto cn : l.deletedConnectorList) { if (live.count(cn)) why = "deleted connector still live"; for (auto n : l.newConnectorList) if (n == cn) why = "connector in both new and deleted lists"; }
             for (auto jn : l.newJunctionList) if (!liveObs.count(jn) && !imDelJ.count(jn)) why = "new junction not among live obstacles";
             for (auto jn : l.deletedJunctionList) for (auto n : l.newJunctionList) if (n == jn) why = "junction in both new and deleted lists";
+            set<ConnRef *> uc(l.newConnectorList.begin(), l.newConnectorList.end()); set<JunctionRef *> uj(l.newJunctionList.begin(), l.newJunctionList.end());
+            if (uc.size() != l.newConnectorList.size() || uj.size() != l.newJunctionList.size()) why = "object listed twice as new";
+        };
+        if (c.reg) checkLists();
+        if (c.reg && c.second == 2) {   // a second full rerouting in the very next transaction
+            if (c.reg == 1) { HyperedgeNewAndDeletedObjectLists l = router->hyperedgeRerouter()->newAndDeletedObjectLists(0); set<Obstacle *> liveObs(router->m_obstacles.begin(), router->m_obstacles.end());
+                HyperedgeNewAndDeletedObjectLists im = router->newAndDeletedObjectListsFromHyperedgeImprovement(); set<JunctionRef *> gone(l.deletedJunctionList.begin(), l.deletedJunctionList.end()); gone.insert(im.deletedJunctionList.begin(), im.deletedJunctionList.end());
+                JunctionRef *j2 = nullptr; for (auto o : router->m_obstacles) { JunctionRef *jj = dynamic_cast<JunctionRef *>(o); if (jj && !gone.count(jj) && !j2) j2 = jj; }
+                if (j2) { router->hyperedgeRerouter()->registerHyperedgeForRerouting(j2); router->processTransaction(); nTrans++; if (why.empty()) checkLists(); } }
+            else { ConnEndList terms; for (auto s : shapes) terms.push_back(ConnEnd(s, 1)); router->hyperedgeRerouter()->registerHyperedgeForRerouting(terms); router->processTransaction(); nTrans++; if (why.empty()) checkLists(); }
         }
         // class: the rerouted tree runs THROUGH a terminal (a junction, or a route point that is not one of its pins, lies inside a terminal shape)
         if (c.reg) { auto inBox = [&](Point p, ShapeRef *sh) { Box b = sh->polygon().offsetBoundingBox(0); return p.x > b.min.x - 1e-9 && p.x < b.max.x + 1e-9 && p.y > b.min.y - 1e-9 && p.y < b.max.y + 1e-9; };
             for (auto o : router->m_obstacles) { JunctionRef *jj = dynamic_cast<JunctionRef *>(o); if (jj) for (auto sh : shapes) if (inBox(jj->position(), sh)) throughTerminal = true; }
             for (auto cn : router->connRefs) { const PolyLine &r = cn->displayRoute(); for (size_t q = 0; q < r.size(); q++) for (auto sh : shapes) if (inBox(r.ps[q], sh)) { bool isPin = false; for (auto pi : sh->m_connection_pins) { Point pp = pi->position(); if (fabs(pp.x - r.ps[q].x) < 1e-6 && fabs(pp.y - r.ps[q].y) < 1e-6) isPin = true; } if (!isPin) throughTerminal = true; } } }
-        if (c.second) {   // move the first terminal one cell, to the first free neighbouring cell (never onto another terminal)
+        if (c.second == 1) {   // move the first terminal one cell, to the first free neighbouring cell (never onto another terminal)
             static const int D[4][2] = {{1, 0}, {0, 1}, {-1, 0}, {0, -1}}; int dx = 0, dy = 0;
             for (auto &d : D) { bool occ = false; for (auto &p : shapePos) if (p.first == shapePos[0].first + d[0] && p.second == shapePos[0].second + d[1]) occ = true; if (!occ) { dx = d[0] * 20; dy = d[1] * 20; break; } }
             router->moveShape(shapes[0], dx, dy); router->processTransaction(); nTrans++; }
@@ -58,7 +68,7 @@ static void run(const vector<pair<int, int>> &shapePos, pair<int, int> jpos, con
         map<void *, vector<void *>> adj; set<unsigned> leafShapes; int nconn = 0; set<void *> juncs;
         // objects the last transaction reported as deleted stay in the router's lists until it frees them "at its convenience": they are not part of the hyperedge
         set<JunctionRef *> deletedJ; set<ConnRef *> deletedC;
-        if (c.reg && !c.second) { HyperedgeNewAndDeletedObjectLists l = router->hyperedgeRerouter()->newAndDeletedObjectLists(0); deletedJ.insert(l.deletedJunctionList.begin(), l.deletedJunctionList.end()); deletedC.insert(l.deletedConnectorList.begin(), l.deletedConnectorList.end()); }
+        if (c.reg && c.second != 1) { HyperedgeNewAndDeletedObjectLists l = router->hyperedgeRerouter()->newAndDeletedObjectLists(0); deletedJ.insert(l.deletedJunctionList.begin(), l.deletedJunctionList.end()); deletedC.insert(l.deletedConnectorList.begin(), l.deletedConnectorList.end()); }
         { HyperedgeNewAndDeletedObjectLists l = router->newAndDeletedObjectListsFromHyperedgeImprovement(); deletedJ.insert(l.deletedJunctionList.begin(), l.deletedJunctionList.end()); deletedC.insert(l.deletedConnectorList.begin(), l.deletedConnectorList.end());
             set<ConnRef *> live(router->connRefs.begin(), router->connRefs.end()); set<Obstacle *> liveObs(router->m_obstacles.begin(), router->m_obstacles.end());
             for (auto cn : l.newConnectorList) if (!live.count(cn) && !deletedC.count(cn) && why.empty()) why = "new connector not among live connectors";
@@ -122,9 +132,9 @@ int main(int argc, char **argv) {
     ctx.init(argc, argv);
     bool T = ctx.thorough();
     // one execution in system-malloc mode first, so that lazily built library statics never live in the arena
-    run({{0, 0}, {2, 0}, {1, 2}}, {1, 1}, {2, 1, true, 0, 0});
-    vector<Cfg> base; for (int opt = 0; opt < 3; opt++) for (int reg = 0; reg < 3; reg++) for (int sec = 0; sec < 2; sec++) for (int heap = 1; heap <= 2; heap++) base.push_back({opt, reg, (bool)sec, 0, heap});
-    vector<Cfg> small; for (int reg = 0; reg < 3; reg++) for (int heap = 1; heap <= 2; heap++) small.push_back({2, reg, true, 0, heap});
+    run({{0, 0}, {2, 0}, {1, 2}}, {1, 1}, {2, 1, 1, 0, 0});
+    vector<Cfg> base; for (int opt = 0; opt < 3; opt++) for (int reg = 0; reg < 3; reg++) for (int sec = 0; sec < 3; sec++) for (int heap = 1; heap <= 2; heap++) { if (sec == 2 && reg == 0) continue; base.push_back({opt, reg, sec, 0, heap}); }
+    vector<Cfg> small; for (int reg = 0; reg < 3; reg++) for (int heap = 1; heap <= 2; heap++) small.push_back({2, reg, 1, 0, heap});
     phase(3, 2, base, "all options, 3x3 grid"); phase(3, 3, small, "improve all, second transaction"); phase(4, 2, base, "all options, 3x3 grid");
     if (T) { phase(3, 3, base, "all options"); vector<Cfg> ob; for (auto c : base) { c.obstacle = 1; if (c.opt != 1) ob.push_back(c); } phase(3, 2, ob, "with obstacle"); phase(4, 2, ob, "with obstacle"); phase(4, 3, base, "all options"); phase(5, 2, base, "all options, 3x3 grid"); }
     return ctx.finish();
